@@ -16,7 +16,7 @@ CRATE=${PKG#swiftness_}
 DEMO=$(ls "$SRC"/*.rs | head -1)
 [ -n "$PKG" ] && [ -n "$TEST" ] || { echo "cannot parse demo command: $CMD"; exit 2; }
 mkdir -p crates/$CRATE/tests && cp "$DEMO" crates/$CRATE/tests/$TEST.rs
-RUN="cargo test -p $PKG --offline --test $TEST $(echo "$CMD" | grep -o -- '--features [A-Za-z0-9_,]*' || true)"
+RUN="cargo test -p $PKG --offline --test $TEST $(echo "$CMD" | grep -o -- '--no-default-features' || true) $(echo "$CMD" | grep -o -- '--features [A-Za-z0-9_,]*' || true)"
 echo "== demo on the unchanged tree: $RUN"
 if $RUN > /tmp/verify_seed_1.log 2>&1; then echo "   passes"; else echo "   FAILS on the unchanged tree"; tail -20 /tmp/verify_seed_1.log; exit 1; fi
 git apply "$SRC/patch.diff" || { echo "patch does not apply"; exit 1; }
